@@ -91,6 +91,46 @@ def shortwrite_life(root: str, kind: str, ds, tables) -> None:
     os._exit(0)
 
 
+def renamefail_life(root: str, kind: str, ds, tables) -> None:
+    """the rename that publishes a file of the given kind is refused once (EXDEV/EBUSY: bind mounts, overlay
+    directories, network shares): the operation must fail, or publish the file some other way that is just as
+    durable - never an unflushed copy behind an advanced pointer"""
+    pat = {"metadata": ".metadata.json", "manifest_list": "manifest_list_", "manifest": "manifest_", "data": ".parquet",
+           "hint": "version-hint"}[kind]
+    real = {"rename": os.rename, "replace": os.replace}
+    state = {"armed": False, "fired": 0}
+
+    def make(name):
+        def fn(src, dst, *a, **kw):
+            d = os.fspath(dst)
+            if state["armed"] and not state["fired"] and pat in os.path.basename(d) and ".inflight" not in d \
+                    and (kind != "manifest" or "manifest_list_" not in d):
+                state["fired"] = 1
+                os.write(2, b"MARK fault_fired\n")
+                raise OSError(18, "Invalid cross-device link (injected)")
+            return real[name](src, dst, *a, **kw)
+        return fn
+
+    os.rename = make("rename")
+    os.replace = make("replace")
+    mark("create")
+    t = ds.create_table(root, schema=tables.std_schema())
+    mark("append")
+    t.append_records(tables.rows([1, 2]))
+    state["armed"] = True
+    mark("append_with_refused_rename")
+    try:
+        t.append_records(tables.rows([3, 4]))
+        mark("faulted_append_ACKED")
+    except Exception as e:  # noqa
+        mark("faulted_append_RAISED " + type(e).__name__)
+    state["armed"] = False
+    mark("append_after_fault")
+    ds.load_table(root).append_records(tables.rows([5]))
+    mark("end")
+    os._exit(0)
+
+
 def main() -> None:
     root = sys.argv[1]
     variant = sys.argv[2] if len(sys.argv) > 2 else "a"
@@ -104,6 +144,8 @@ def main() -> None:
         return fault_life(root, variant.split(":", 1)[1], ds, tables)
     if variant.startswith("shortwrite:"):
         return shortwrite_life(root, variant.split(":", 1)[1], ds, tables)
+    if variant.startswith("renamefail:"):
+        return renamefail_life(root, variant.split(":", 1)[1], ds, tables)
 
     mark("create")
     t = ds.create_table(root, schema=tables.std_schema())
